@@ -489,12 +489,96 @@ def oracle(ctx):
     generator_raises(ctx)
     twin_histories(ctx)
     mutator_schedules(ctx)
+    transient_failures(ctx)
     for r in runs:
         if r["kind"] == "threads" and len(r["qs"]) >= 3:
             ctx.sample({"rule": r["rule"], "n": r["n"], "queries": [q_wire(tuple(q)) for q in r["qs"]],
                         "schedule": sched.seg_wire([tuple(s) for s in r["segs"]]), "answers": r["res"], "statuses": r["st"]}, cap=4)
     ctx.sample({"kind": "nexts", "n": 13, "ops": "n1,n0 x14,n1 x14 (the schedule that dead-locked before fix a459cd4)",
                 "out": run_nexts_case("daily", 13, 2, ["n1"] + ["n0"] * 14 + ["n1"] * 14)[1]})
+
+
+class FlakyOnce(object):
+    """a member 'rule' whose iterators yield L, except that the FIRST time any of them is about to produce the value of index k it raises
+    `exc` instead — once: a transient failure (an I/O error in a lazily loaded zone, a Ctrl-C); every later attempt succeeds"""
+    def __init__(self, L, k, exc):
+        self.L, self.k, self.exc, self.fired = L, k, exc, False
+
+    def __iter__(self):
+        for j, x in enumerate(self.L):
+            if j == self.k and not self.fired:
+                self.fired = True
+                raise self.exc("transient failure before value %d" % j)
+            yield rrlib.to_dt(x)
+
+
+EXCS = {"OSError": OSError, "KeyboardInterrupt": KeyboardInterrupt, "ZeroDivisionError": ZeroDivisionError}
+TRANSIENT_L = [7 * i + 3 for i in range(40)]
+
+
+def run_transient(k, excname, cache, qs, live):
+    """one history on a set whose member fails ONCE before value k: (observations, expectations, error count, wrong answers)"""
+    from dateutil import rrule as R
+    import itertools
+    exc, L = EXCS[excname], TRANSIENT_L
+
+    def run_q(obj, q):
+        try:
+            return rrlib.impl_query(obj, q)
+        except BaseException as ex:
+            return "err " + type(ex).__name__
+
+    def take(it, n):
+        try:
+            return ints(list(itertools.islice(it, n)))
+        except BaseException as ex:
+            return "err " + type(ex).__name__
+    s = R.rruleset(cache=cache)
+    s.rrule(FlakyOnce(L, k, exc))
+    obs, want, its = [], [], []
+    if live is not None:
+        # two iterators created up front; one of them advanced a little BEFORE the queries: both are live during the error
+        its = [iter(s), iter(s)]
+        obs.append(("it%d+%d" % (live[1], live[0]), take(its[live[1]], live[0]))); want.append(L[:live[0]])
+    for q in qs:
+        obs.append((q_wire(q), run_q(s, q))); want.append(py_query(L, q))
+    for j, it in enumerate(its):
+        already = live[0] if j == live[1] else 0
+        prev = obs[0][1] if j == live[1] else []
+        if isinstance(prev, str):
+            continue                     # that iterator itself met the error: its generator is finished (cached or not)
+        obs.append(("it%d rest" % j, take(it, 100))); want.append(L[already:])
+    iserr = lambda o: isinstance(o, str) and o.startswith("err " + excname)
+    errs = [o for (_, o) in obs if iserr(o)]
+    bad = [(n, o, w) for (n, o), w in zip(obs, want) if o != w and not iserr(o)]
+    return obs, want, errs, bad
+
+
+def transient_failures(ctx):
+    """a TRANSIENT failure of the underlying generator (it raises once, at one position, and works when asked again): an uncached object
+    recovers on the next request, and so must a cached one — `_restartable` replaces the dead generator by a fresh one at the same
+    position, it does not remember the error.  On twins (cached / uncached) and with iterators that were LIVE during the error:
+    in every history at most ONE operation ends with the error, and every other one gives the list-semantics answer on the full sequence."""
+    rng = ctx.subrng("transient")
+    cases = []
+    for k in (0, 4, 9, 10, 20, 24, 39):
+        for exc in sorted(EXCS):
+            cases.append((k, exc, [("all",), ("all",), ("cnt",), ("idx", -1)], None))
+            cases.append((k, exc, [("idx", min(k, 39)), ("all",), ("cnt",)], None))
+            cases.append((k, exc, [("all",), ("cnt",)], (rng.choice([1, 3, 12]), rng.choice([0, 1]))))     # with live iterators
+    for _ in range(ctx.budget(30, 300)):
+        cases.append((rng.randrange(0, 40), rng.choice(sorted(EXCS)), [rrlib.random_query(rng, TRANSIENT_L) for _ in range(rng.randint(2, 6))],
+                      (rng.choice([1, 3, 12, 25]), rng.choice([0, 1])) if rng.random() < 0.5 else None))
+    for k, exc, qs, live in cases:
+        for cache in (True, False):
+            with hang_guard(30, "transient failure at %d, queries %s" % (k, ";".join(q_wire(q) for q in qs))):
+                obs, want, errs, bad = run_transient(k, exc, cache, qs, live)
+            ctx.case(("transient", k, exc, cache, tuple(qs), live), nontrivial=True)
+            ctx.count("transient_failure_histories")
+            if len(errs) > 1 or bad:
+                ctx.violation("generator that fails ONCE (%s before value %d of 40), %s set, history %s: %d operations end with the error (at most one may), wrong answers %s"
+                              % (exc, k, "cached" if cache else "uncached", [(n, (o if isinstance(o, str) else "%d values" % len(o))[:40]) for n, o in obs], len(errs), bad[:2]),
+                              {"kind": "transient", "k": k, "exc": exc, "cache": cache, "qs": [list(q) for q in qs], "live": list(live) if live else None}, None)
 
 
 MUTATIONS = {
@@ -801,6 +885,11 @@ def replay(ctx, payload):
         print("replay nested: %d cached objects, %d distinct lock objects; schedule %s -> statuses %s answers %s"
               % (len(objs), nl, sched.seg_wire(segs), st, res))
         return all(x == "done" for x in st) and all(g == py_query(exp[o], q) for (o, q), g in zip(jobs, res))
+    if c.get("kind") == "transient":
+        obs, want, errs, bad = run_transient(c["k"], c["exc"], c["cache"], [tuple(q) for q in c["qs"]], tuple(c["live"]) if c.get("live") else None)
+        print("replay transient failure (%s once before value %d, %s set): %s -> %d operations end with the error, wrong answers %s"
+              % (c["exc"], c["k"], "cached" if c["cache"] else "uncached", [(n, (o if isinstance(o, str) else "%d values" % len(o))[:40]) for n, o in obs], len(errs), bad[:2]))
+        return len(errs) <= 1 and not bad
     if c.get("kind") == "mutator":
         st, got, want, tr = run_mutator_case(c["mut"], c["warm"], c["n"], tuple(c["rq"]), [tuple(x) for x in c["segs"]])
         print("replay mutator %s vs %s, schedule %s: trace %s statuses %s; afterwards cached %s uncached %s"
